@@ -170,3 +170,52 @@ func VerifCacheDiff(args []string) {
 		verifSameOutcome(r1[i], r2[i], "memoization")
 	}
 }
+
+// verifDiffOutcome is verifSameOutcome as a function: what differs between two configurations on one input ("" if nothing).
+func verifDiffOutcome(a, b verifOutcome) string {
+	if a.panics != b.panics {
+		return "/panic"
+	}
+	if a.panics != "" {
+		return ""
+	}
+	if a.out != b.out {
+		return "/printed-output"
+	}
+	if a.isErr != b.isErr {
+		return "/error-outcome"
+	}
+	if a.isErr || a.res == nil || b.res == nil {
+		return ""
+	}
+	if a.res.Type() != b.res.Type() {
+		return "/result-type"
+	}
+	if !(object.Equals(a.res, b.res) || verifBothNaN(a.res, b.res)) {
+		return "/result-value"
+	}
+	return ""
+}
+
+// VerifRegDiffVals is VerifRegDiff for the harnesses of other packages (which own the symbolic values and the
+// assertions): it returns the labels of what differs between registers on and off, and how many inputs completed.
+func VerifRegDiffVals(args []string, vals map[string]object.Object) (diffs []string, completed int) {
+	s1, o1 := verifNewState(false)
+	s2, o2 := verifNewState(true)
+	s1.MaxDepth, s2.MaxDepth = 80, 80
+	r1 := verifRunSession(s1, o1, vals, args)
+	r2 := verifRunSession(s2, o2, vals, args)
+	at := "#" + strings.ReplaceAll(strings.Join(args, " | "), "\n", " ")
+	if len(at) > 140 {
+		at = at[:140]
+	}
+	for i := range args {
+		if d := verifDiffOutcome(r1[i], r2[i]); d != "" {
+			diffs = append(diffs, "registers"+at+d)
+		}
+		if r1[i].panics == "" && !r1[i].isErr {
+			completed++
+		}
+	}
+	return diffs, completed
+}
